@@ -50,19 +50,15 @@ theorem pauseLoopH_plain (cfg : Cfg) (defs : List Kind) (hd : HDefs) (h : NoHook
 
 theorem resumeLoopH_plain (cfg : Cfg) (defs : List Kind) (hd : HDefs) (h : NoHooks hd) (l : List Nat) :
     ∀ (s : St) (calls : List Call) (err : Option Exc),
-      resumeLoopH cfg defs hd l s calls err =
-        ((resumeLoop defs l s calls err).1, (resumeLoop defs l s calls err).2.1, (resumeLoop defs l s calls err).2.2, false) := by
+      resumeLoopH cfg defs hd l s calls err = resumeLoop defs l s calls err := by
   induction l with
   | nil => intro s calls err; rfl
   | cons c rest ih =>
     intro s calls err
     unfold resumeLoopH resumeLoop
     rw [resumeCtxH_plain cfg defs hd h]
-    have hr := resumeCtx_reg defs s c
-    generalize resumeCtx defs s c = r at hr
+    generalize resumeCtx defs s c = r
     obtain ⟨s', cl, e⟩ := r
-    simp only [] at hr
-    simp only [hr, bne_self_eq_false, Bool.false_and, Bool.false_eq_true, if_false]
     exact ih s' (calls ++ cl) (keepFirst err e)
 
 theorem pauseContextsH_plain (cfg : Cfg) (defs : List Kind) (hd : HDefs) (h : NoHooks hd) (s : St) :
@@ -72,14 +68,10 @@ theorem pauseContextsH_plain (cfg : Cfg) (defs : List Kind) (hd : HDefs) (h : No
   rfl
 
 theorem resumeContextsH_plain (cfg : Cfg) (defs : List Kind) (hd : HDefs) (h : NoHooks hd) (s : St) :
-    resumeContextsH cfg defs hd s = ((resumeContexts defs s).1, (resumeContexts defs s).2, false) := by
+    resumeContextsH cfg defs hd s = resumeContexts defs s := by
   unfold resumeContextsH resumeContexts
   rw [resumeLoopH_plain cfg defs hd h]
-  split
-  · rfl
-  · generalize resumeLoop defs s.reg { s with active := true } [] none = r
-    obtain ⟨s', calls, e⟩ := r
-    cases e <;> rfl
+  rfl
 
 theorem enterOpH_plain (cfg : Cfg) (defs : List Kind) (hd : HDefs) (h : NoHooks hd) (s : St) (c : Nat) :
     enterOpH cfg defs hd s c = enterOp cfg defs s c := by
@@ -184,32 +176,5 @@ theorem resumeCtxH_reg_phase (cfg : Cfg) (defs : List Kind) (hd : HDefs) (h : no
     simp only []
     have := runActs_reg_phase cfg defs (hdefOf hd c).onR (noExit_allEnter hd h c) s1 cl (by rw [hph]; exact hp)
     exact ⟨this.1.trans hr, this.2.trans hph⟩
-
-theorem resumeLoopH_no_crash (cfg : Cfg) (defs : List Kind) (hd : HDefs) (h : noExitOnResume hd = true) (l : List Nat) :
-    ∀ (s : St) (calls : List Call) (err : Option Exc), s.phase ≠ .running →
-      (resumeLoopH cfg defs hd l s calls err).2.2.2 = false := by
-  induction l with
-  | nil => intro s calls err _; rfl
-  | cons c rest ih =>
-    intro s calls err hp
-    have hk := resumeCtxH_reg_phase cfg defs hd h s c hp
-    unfold resumeLoopH
-    generalize resumeCtxH cfg defs hd s c = r at hk
-    obtain ⟨s', cl, e⟩ := r
-    simp only [] at hk
-    simp only [hk.1, bne_self_eq_false, Bool.false_and, Bool.false_eq_true, if_false]
-    exact ih s' (calls ++ cl) (keepFirst err e) (by rw [hk.2]; exact hp)
-
-theorem resumeContextsH_no_crash (cfg : Cfg) (defs : List Kind) (hd : HDefs) (h : noExitOnResume hd = true) (s : St)
-    (hp : s.phase ≠ .running) : (resumeContextsH cfg defs hd s).2.2 = false := by
-  unfold resumeContextsH
-  split
-  · rfl
-  · have := resumeLoopH_no_crash cfg defs hd h s.reg { s with active := true } [] none hp
-    generalize resumeLoopH cfg defs hd s.reg { s with active := true } [] none = r at this
-    obtain ⟨s', calls, e, b⟩ := r
-    simp only [] at this
-    subst this
-    cases e <;> rfl
 
 end AsynqModel.Core.P28
